@@ -79,6 +79,15 @@ func selection(r *hx.Run) {
 		if acq != rel {
 			r.Fail("", fmt.Sprintf("selection: %s left a key held (acquired=%d released=%d)", entry, acq, rel))
 		}
+		if panicked {
+			r.Fail("", fmt.Sprintf("selection: %s went on without any lock source: nil dereference when the lock was needed (Locker given: %v)", entry, given != nil))
+		}
+		if built && !panicked && given != nil && given.calls.Load() == 0 {
+			r.Fail("", fmt.Sprintf("selection: %s was given a lock source and did not use it (process-local acquisitions instead: %d)", entry, acq))
+		}
+		if built && !panicked && given == nil && acq == 0 {
+			r.Fail("", fmt.Sprintf("selection: %s without a Locker ran its locked work with no lock taken anywhere", entry))
+		}
 		switch {
 		case panicked:
 			return "nil-deref"
@@ -174,6 +183,10 @@ func selection(r *hx.Run) {
 					return ""
 				}
 				defer u.Close()
+				if u.LockerForVerif() == nil {
+					// Run would dereference it in a worker goroutine, which nothing can recover
+					panic("updater.New left the Updater without a lock source")
+				}
 				u.Run(ctx, false)
 				return ""
 			})
